@@ -947,6 +947,16 @@ func (f *Frame) sliceOp(st *State, x *ssa.Slice) {
 			f.unsupported("partial slice of array")
 		}
 		f.vals[x] = sliceVal(x.Type(), bl.Base, n, n)
+		// a slice literal: unfold the element-set view for its (small, constant)
+		// length so that contracts quantifying over such slices see its members
+		if at.Len() >= 1 && at.Len() <= 4 {
+			el := elemOf(x.Type())
+			if lay := layout(el); len(lay) == 1 && vc.declared[sym("ES|"+typeKey(el))] {
+				for k := int64(1); k <= at.Len(); k++ {
+					f.elemSet(st, f.vals[x], IntT(k))
+				}
+			}
+		}
 		return
 	case *types.Slice:
 		lo = Zero
